@@ -127,9 +127,37 @@ def one_internal(sid, phase, third):
     return s.done()
 
 
+def one_responding(sid, third, stall_ms=1300):
+    """the second caller arrives while the runtime is still sending the body of its answer (the upload stalls for a
+    while): it is refused at once all the same, and the first invocation completes when the body has arrived"""
+    s = Scn(sid, ext=[], timeout_ms=4000, opWaitMs=9000)
+    s.meta(family="second-caller", phase="responding", stall=stall_ms)
+    tags = s.boot({})
+    i1 = s.invoke(caller=1, size=4, seed=1)
+    s.wait(tags["rt"])
+    s.hold("drv.body:r1", 1)
+    post = s.call("rt", "response", async_=True, id="current", size=3000, seed=9, headers={"X-Verif-Slow-Body": "r1"})
+    s.until_held("drv.body:r1")
+    s.sleep(30)
+    t2 = s.invoke(caller=2, size=3, seed=77)
+    t3 = s.invoke(caller=3, size=3, seed=78) if third else None
+    s.sleep(stall_ms)
+    s.release("drv.body:r1")
+    s.wait(post)
+    s.wait(t2)
+    if t3:
+        s.wait(t3)
+    tags["rt"] = s.poll("rt")
+    s.wait(i1)
+    s.round(tags, {})
+    return s.done()
+
+
 def scenarios(ctx):
     out = []
     n = 0
+    out.append(one_responding("c10-responding1", False))
+    out.append(one_responding("c10-responding2", True))
     for phase in PHASES:
         for third in (False, True):
             for with_ext in (False, True) + (("int",) if phase in ("dispatched", "responded") else ()):
